@@ -190,6 +190,7 @@ class SimFS:
         self.entries = {}
         self.on_fire = on_fire or (lambda kind: None)
         self.opened = []            # (path, mode, outcome)
+        self.handles = []           # weak references to open write handles
         for p, e in (entries or {}).items():
             self.entries[self.norm(p)] = dict(e)
 
@@ -288,10 +289,23 @@ class SimFS:
                      on_fire=self.on_fire, fs_entry=entry, append=append)
         self.opened.append((path, mode, "ok"))
         buf = io.BufferedWriter(raw, buffer_size=64)
-        if binary:
-            return buf
-        return io.TextIOWrapper(buf, encoding=encoding or "utf-8",
-                                errors=errors, newline=newline)
+        h = buf if binary else io.TextIOWrapper(
+            buf, encoding=encoding or "utf-8", errors=errors,
+            newline=newline)
+        import weakref
+        self.handles.append(weakref.ref(h))
+        return h
+
+    def process_exit(self):
+        """Model process termination: flush and close what is still open."""
+        for r in self.handles:
+            h = r()
+            if h is not None and not h.closed:
+                try:
+                    h.close()
+                except OSError:
+                    pass
+        self.handles = []
 
 
 @contextmanager
